@@ -140,6 +140,7 @@ pub struct Report {
     pub notes: Vec<String>,
     known: Vec<KnownFinding>,
     pub strict: bool,
+    pub infra_errors: u32,
 }
 
 #[derive(Clone, Debug)]
@@ -199,6 +200,7 @@ impl Report {
             notes: vec![],
             known: load_known_findings(),
             strict: false,
+            infra_errors: 0,
         }
     }
 
@@ -214,6 +216,11 @@ impl Report {
 
     /// Registers a failure: writes the replay file, prints VIOLATION or KNOWN-FINDING.
     pub fn fail(&mut self, check: &str, signature: &str, message: &str, replay: Value) {
+        if signature.starts_with("harness") {
+            println!("HARNESS-ERROR (infrastructure, not a verdict) check={check} {signature}: {message}\n  case: {}", replay);
+            self.infra_errors += 1;
+            return;
+        }
         if !self.strict {
             if let Some(k) = self.is_known(signature) {
                 let line = format!(
@@ -456,12 +463,15 @@ where
 
 thread_local! {
     pub static IN_GUARD: std::cell::Cell<bool> = const { std::cell::Cell::new(false) };
+    pub static LAST_PANIC_FILE: std::cell::RefCell<String> = const { std::cell::RefCell::new(String::new()) };
 }
 
 /// Installs a panic hook that stays quiet for panics caught per case and prints everything else.
 pub fn install_panic_hook() {
     let default = std::panic::take_hook();
     std::panic::set_hook(Box::new(move |info| {
+        let file = info.location().map(|l| format!("{}:{}", l.file(), l.line())).unwrap_or_default();
+        LAST_PANIC_FILE.with(|f| *f.borrow_mut() = file);
         if !IN_GUARD.with(|g| g.get()) || std::env::var("VERIF_DEBUG").is_ok() {
             default(info);
         }
@@ -482,6 +492,11 @@ pub fn guarded<T, F: Fn(&T) -> Verdict>(oracle: &F, v: &T) -> Verdict {
             } else {
                 "panic".to_string()
             };
+            let file = LAST_PANIC_FILE.with(|f| f.borrow().clone());
+            if file.contains("vcheck/src/") {
+                // a bug in the harness itself is an infrastructure problem, never a verdict
+                return Err((format!("harness_panic:{file}"), format!("harness panicked at {file}: {msg}")));
+            }
             // signature: panic message without numbers
             let sig: String = msg
                 .chars()
